@@ -1,6 +1,6 @@
-(* Property C19 -- newer-strategy databases accept every write (sequential part) *)
+(* Property C19 -- newer-strategy databases accept every write; the most recently issued change wins; replicas agree *)
 (* Statements only: each theorem restates the proved lemma's statement and is closed by [exact]. *)
-From NunDB Require Import Model.Base Model.Pending Model.Parse Model.Node Proofs.DbProofs Model.Sched Proofs.SchedProofs.
+From NunDB Require Import Model.Base Model.Pending Model.Parse Model.Node Proofs.DbProofs Model.Sched Proofs.SchedProofs Proofs.ClusterProofs Proofs.NewerReplicaProofs.
 Local Open Scope Z_scope.
 
 (* no versioned write is refused; the reply names the value now stored; the version never decreases; other keys untouched *)
@@ -163,3 +163,254 @@ Theorem C19_sched_newer_version_grows_inv :
            get_value d' k = Some nw /\ v_ver old <= v_ver nw.
 Proof. exact newer_version_grows_inv. Qed.
 Print Assumptions C19_sched_newer_version_grows_inv.
+
+(* when op ids grow with issue order (every stored op id is below the node's clock) the keep-old branch is never taken: the incoming change is stored, live, with a strictly higher version; other keys untouched; the invariant is kept *)
+Theorem C19_newer_incoming_wins :
+  forall (n : node) (dbn : str) (d : db) (key value0 : str) (ver : Z) (n' : node) (r : resp),
+         get_db n dbn = Some d ->
+         d_strat d = SNewer ->
+         opps_below n d ->
+         ver <> -2 ->
+         (forall old : value, get_value d key = Some old -> v_ver old <> -2 /\ v_ver old < i32_max) ->
+         set_key_value n dbn key value0 ver = (n', r) ->
+         r = RSet key value0 /\
+         (exists (d' : db) (nw : value),
+            get_db n' dbn = Some d' /\
+            live d' key = Some value0 /\
+            get_value d' key = Some nw /\
+            v_val nw = value0 /\
+            v_st nw <> VDeleted /\
+            (n_clock n <= v_opp nw < n_clock n')%N /\
+            opps_below n' d' /\
+            d_strat d' = SNewer /\
+            (forall old : value, get_value d key = Some old -> v_ver old < v_ver nw) /\
+            (get_value d key = None -> v_ver nw = sat_succ ver /\ v_st nw = VNew) /\
+            (forall k' : str, k' <> key -> get_value d' k' = get_value d k')).
+Proof. exact newer_incoming_wins. Qed.
+Print Assumptions C19_newer_incoming_wins.
+
+(* the clock invariant is kept by every write, whatever the version argument (refusal by saturation included) *)
+Theorem C19_newer_opps_below_inv :
+  forall (n : node) (dbn : str) (d : db) (key value : str) (ver : Z) (n' : node) (r : resp),
+         get_db n dbn = Some d ->
+         d_strat d = SNewer ->
+         opps_below n d ->
+         set_key_value n dbn key value ver = (n', r) ->
+         exists d' : db,
+           get_db n' dbn = Some d' /\
+           d_strat d' = SNewer /\
+           opps_below n' d' /\
+           (n_clock n < n_clock n')%N /\ (d', r) = newer_db_step d key value ver (n_clock n).
+Proof. exact newer_opps_below_inv. Qed.
+Print Assumptions C19_newer_opps_below_inv.
+
+(* kept visible: without the clock invariant (an op-id inversion) the old value is kept *)
+Theorem C19_newer_keep_old_without_invariant :
+  get_db cx_node "d" = Some cx_db /\
+         d_strat cx_db = SNewer /\
+         ~ opps_below cx_node cx_db /\ snd (set_key_value cx_node "d" "k" "x" 3) = RSet "k" "<Empty>".
+Proof. exact newer_keep_old_without_invariant. Qed.
+Print Assumptions C19_newer_keep_old_without_invariant.
+
+(* UNBOUNDED: the same writes, in the same order, on two replicas with their own clocks, watchers and sessions leave them with the same value, version and removed/live status for every key, and with related replies -- any number of writes, no condition on versions *)
+Theorem C19_newer_replicas_agree :
+  forall (ws : list wr) (n1 n2 : node) (dbn : str) (d1 d2 : db),
+         get_db n1 dbn = Some d1 ->
+         get_db n2 dbn = Some d2 ->
+         d_strat d1 = SNewer ->
+         d_strat d2 = SNewer ->
+         dbrel d1 d2 ->
+         opps_below n1 d1 ->
+         opps_below n2 d2 ->
+         Forall2 resp_rel (snd (run_writes n1 dbn ws)) (snd (run_writes n2 dbn ws)) /\
+         (exists d1' d2' : db,
+            get_db (fst (run_writes n1 dbn ws)) dbn = Some d1' /\
+            get_db (fst (run_writes n2 dbn ws)) dbn = Some d2' /\
+            dbrel d1' d2' /\
+            d_strat d1' = SNewer /\
+            d_strat d2' = SNewer /\
+            opps_below (fst (run_writes n1 dbn ws)) d1' /\ opps_below (fst (run_writes n2 dbn ws)) d2').
+Proof. exact newer_replicas_agree. Qed.
+Print Assumptions C19_newer_replicas_agree.
+
+(* an accepted write gets the same reply on both replicas *)
+Theorem C19_newer_replicas_replies :
+  forall (ws : list wr) (n1 n2 : node) (dbn : str) (d1 d2 : db),
+         get_db n1 dbn = Some d1 ->
+         get_db n2 dbn = Some d2 ->
+         d_strat d1 = SNewer ->
+         d_strat d2 = SNewer ->
+         dbrel d1 d2 ->
+         opps_below n1 d1 ->
+         opps_below n2 d2 ->
+         Forall2 (fun r1 r2 : resp => resp_rel r1 r2 /\ (forall k v : str, r1 = RSet k v -> r2 = r1))
+           (snd (run_writes n1 dbn ws)) (snd (run_writes n2 dbn ws)).
+Proof. exact newer_replicas_replies. Qed.
+Print Assumptions C19_newer_replicas_replies.
+
+(* kept visible: a write refused by version saturation is refused on both replicas but the refusals carry each node's own op ids *)
+Theorem C19_newer_refused_replies_differ :
+  opps_below (sat_node 0) sat_db /\
+         opps_below (sat_node 1000) sat_db /\
+         snd (set_key_value (sat_node 0) "d" "k" "x" (-1)) <>
+         snd (set_key_value (sat_node 1000) "d" "k" "x" (-1)) /\
+         resp_rel (snd (set_key_value (sat_node 0) "d" "k" "x" (-1)))
+           (snd (set_key_value (sat_node 1000) "d" "k" "x" (-1))) /\
+         get_db (fst (set_key_value (sat_node 0) "d" "k" "x" (-1))) "d" = Some sat_db.
+Proof. exact newer_refused_replies_differ. Qed.
+Print Assumptions C19_newer_refused_replies_differ.
+
+(* after any sequence of writes the last write to a key is the stored value *)
+Theorem C19_newer_last_write_wins :
+  forall (n : node) (dbn : str) (d : db) (ws : list wr) (k v : str) (ver : Z),
+         get_db n dbn = Some d ->
+         d_strat d = SNewer ->
+         opps_below n d ->
+         ver <> -2 ->
+         (forall (dm : db) (old : value),
+          get_db (fst (run_writes n dbn ws)) dbn = Some dm ->
+          get_value dm k = Some old -> v_ver old <> -2 /\ v_ver old < i32_max) ->
+         let res := run_writes n dbn (ws ++ [(k, v, ver)]) in
+         last (snd res) ROk = RSet k v /\
+         (exists (d' : db) (nw : value),
+            get_db (fst res) dbn = Some d' /\
+            live d' k = Some v /\
+            get_value d' k = Some nw /\ v_val nw = v /\ opps_below (fst res) d' /\ d_strat d' = SNewer).
+Proof. exact newer_last_write_wins. Qed.
+Print Assumptions C19_newer_last_write_wins.
+
+(* the same under a bound on versions that is a condition on the initial state and the arguments only *)
+Theorem C19_newer_last_write_wins_bounded :
+  forall (n : node) (dbn : str) (d : db) (ws : list wr) (k v : str) (ver B : Z),
+         get_db n dbn = Some d ->
+         d_strat d = SNewer ->
+         opps_below n d ->
+         vers_in d B ->
+         Forall (fun w : wr => -1 <= wr_ver w < B) ws ->
+         B + Z.of_nat (Datatypes.length ws) <= i32_max ->
+         ver <> -2 ->
+         let res := run_writes n dbn (ws ++ [(k, v, ver)]) in
+         last (snd res) ROk = RSet k v /\
+         (exists d' : db, get_db (fst res) dbn = Some d' /\ live d' k = Some v).
+Proof. exact newer_last_write_wins_bounded. Qed.
+Print Assumptions C19_newer_last_write_wins_bounded.
+
+(* on every replica, with equal reply lists *)
+Theorem C19_newer_last_write_wins_replicas :
+  forall (n1 n2 : node) (dbn : str) (d1 d2 : db) (ws : list wr) (k v : str) (ver B : Z),
+         get_db n1 dbn = Some d1 ->
+         get_db n2 dbn = Some d2 ->
+         d_strat d1 = SNewer ->
+         d_strat d2 = SNewer ->
+         dbrel d1 d2 ->
+         opps_below n1 d1 ->
+         opps_below n2 d2 ->
+         vers_in d1 B ->
+         Forall (fun w : wr => -1 <= wr_ver w < B) ws ->
+         B + Z.of_nat (Datatypes.length ws) <= i32_max ->
+         ver <> -2 ->
+         exists d1' d2' : db,
+           get_db (fst (run_writes n1 dbn (ws ++ [(k, v, ver)]))) dbn = Some d1' /\
+           get_db (fst (run_writes n2 dbn (ws ++ [(k, v, ver)]))) dbn = Some d2' /\
+           live d1' k = Some v /\
+           live d2' k = Some v /\
+           dbrel d1' d2' /\
+           snd (run_writes n1 dbn (ws ++ [(k, v, ver)])) = snd (run_writes n2 dbn (ws ++ [(k, v, ver)])).
+Proof. exact newer_last_write_wins_replicas. Qed.
+Print Assumptions C19_newer_last_write_wins_replicas.
+
+(* under the version bound no write of the run is refused *)
+Theorem C19_newer_run_bounded :
+  forall (ws : list wr) (n : node) (dbn : str) (d : db) (B : Z),
+         get_db n dbn = Some d ->
+         d_strat d = SNewer ->
+         opps_below n d ->
+         vers_in d B ->
+         Forall (fun w : wr => -1 <= wr_ver w < B) ws ->
+         B + Z.of_nat (Datatypes.length ws) <= i32_max ->
+         snd (run_writes n dbn ws) = map (fun w : str * str * Z => RSet (fst (fst w)) (snd (fst w))) ws /\
+         (exists d' : db,
+            get_db (fst (run_writes n dbn ws)) dbn = Some d' /\
+            d_strat d' = SNewer /\
+            opps_below (fst (run_writes n dbn ws)) d' /\ vers_in d' (B + Z.of_nat (Datatypes.length ws))).
+Proof. exact newer_run_bounded. Qed.
+Print Assumptions C19_newer_run_bounded.
+
+(* the handlers: a client's set line on the primary and the replication line it produces, parsed and applied by a secondary, keep the two databases equal *)
+Theorem C19_newer_primary_to_secondary :
+  forall (p : node) (c : nat) (s : node) (cs : nat) (line dbn key value : str) (ver : Z) (d1 d2 : db),
+         s_db (get_sess p c) = Some dbn ->
+         get_db p dbn = Some d1 ->
+         has_permission p c key d1 PWrite = true ->
+         (starts_with key "$$" = true -> s_auth (get_sess p c) = true) ->
+         parse_request (trim_char nl line) = POk (RqSet key value ver) ->
+         s_auth (get_sess s cs) = true ->
+         get_db s dbn = Some d2 ->
+         d_strat d1 = SNewer ->
+         d_strat d2 = SNewer ->
+         dbrel d1 d2 ->
+         opps_below p d1 ->
+         opps_below s d2 ->
+         no_sp dbn ->
+         no_sp key ->
+         no_nl key ->
+         no_nl value ->
+         no_semi_end value ->
+         is_i32 ver ->
+         let p' := fst (step p c line) in
+         let s' := fst (step s cs (replicate_msg dbn key value ver)) in
+         exists d1' d2' : db,
+           get_db p' dbn = Some d1' /\
+           get_db s' dbn = Some d2' /\
+           dbrel d1' d2' /\
+           d_strat d1' = SNewer /\
+           d_strat d2' = SNewer /\
+           opps_below p' d1' /\ opps_below s' d2' /\ (forall k : str, live d1' k = live d2' k).
+Proof. exact newer_primary_to_secondary. Qed.
+Print Assumptions C19_newer_primary_to_secondary.
+
+(* an accepted client write queues exactly the replication line of that write *)
+Theorem C19_newer_primary_queues :
+  forall (p : node) (c : nat) (line dbn key value0 : str) (ver : Z) (d1 : db),
+         s_db (get_sess p c) = Some dbn ->
+         get_db p dbn = Some d1 ->
+         has_permission p c key d1 PWrite = true ->
+         (starts_with key "$$" = true -> s_auth (get_sess p c) = true) ->
+         parse_request (trim_char nl line) = POk (RqSet key value0 ver) ->
+         d_strat d1 = SNewer ->
+         opps_below p d1 ->
+         ver <> -2 ->
+         (forall old : value, get_value d1 key = Some old -> v_ver old <> -2 /\ v_ver old < i32_max) ->
+         exists id : N,
+           (n_clock p < id)%N /\
+           step p c line = (fst (step p c line), ROk) /\
+           n_repl (fst (step p c line)) =
+           n_repl p ++ [ConvergeProofs.rp_line id (replicate_msg dbn key value0 ver)].
+Proof. exact newer_primary_queues. Qed.
+Print Assumptions C19_newer_primary_queues.
+
+(* non-vacuity: two concrete replicas built through the handlers, three writes with versions below, at and above the stored one *)
+Theorem C19_newer_replicas_example :
+  let n1 := ex_node 0 in
+         let n2 := ex_node 1000 in
+         let d1 := ex_db 0 in
+         let d2 := ex_db 1000 in
+         get_db n1 "foo" = Some d1 /\
+         get_db n2 "foo" = Some d2 /\
+         d_strat d1 = SNewer /\
+         d_strat d2 = SNewer /\
+         dbrel d1 d2 /\
+         opps_below n1 d1 /\
+         opps_below n2 d2 /\
+         d1 <> d2 /\
+         (exists v : value, get_value d1 "k" = Some v /\ v_ver v = 3 /\ v_val v = "a") /\
+         snd (run_writes n1 "foo" ex_writes) = [RSet "k" "x"; RSet "k" "y"; RSet "k" "z"] /\
+         snd (run_writes n2 "foo" ex_writes) = [RSet "k" "x"; RSet "k" "y"; RSet "k" "z"] /\
+         (exists e1 e2 : db,
+            get_db (fst (run_writes n1 "foo" ex_writes)) "foo" = Some e1 /\
+            get_db (fst (run_writes n2 "foo" ex_writes)) "foo" = Some e2 /\
+            live e1 "k" = Some "z" /\
+            live e2 "k" = Some "z" /\
+            dbrel e1 e2 /\ get_key_value_new e1 "k" = ("z", 8) /\ get_key_value_new e2 "k" = ("z", 8)).
+Proof. exact newer_replicas_example. Qed.
+Print Assumptions C19_newer_replicas_example.
